@@ -318,7 +318,7 @@ def gen_tree(r):
         # value-kind operands some of which take a data-path argument (resolved against the
         # document when the tree is judged through a rule), at any position of the tree
         from . import c17
-        probes = [mk(r, 3) for _ in range(2)]
+        probes = [G.cap(mk(r, 3)) for _ in range(2)]
 
         def node(d):
             if d <= 0 or r.pct() < 35:
@@ -327,7 +327,7 @@ def gen_tree(r):
 
         return node(r.between(1, 3)), probes, False
     t = G.tree(r, kinds, "typed", depth=r.between(1, 6), null_p=15, meaningful=via_spec)
-    return t, [mk(r, 2) for _ in range(2)], via_spec
+    return t, [G.cap(mk(r, 2)) for _ in range(2)], via_spec
 
 
 def body_tree(case):
